@@ -39,6 +39,39 @@ fn cat_fail(rep: &mut Report, prop: &str, replay: String) {
     }
 }
 
+thread_local! {
+    static DUP_FAILS: std::cell::RefCell<BTreeMap<String, u32>> = std::cell::RefCell::new(BTreeMap::new());
+}
+
+/// The open known finding "decoder constructors accept a symbol list with repeated entries":
+/// at most three FAIL lines per property and run, the rest only counted.  (The two texts
+/// produced through this function are the only failure texts that contain the key phrase the
+/// known-findings filter matches on.)
+fn dup_fail(rep: &mut Report, prop: &str, replay: String) {
+    rep.count("C19.duplicate_symbols");
+    let n = DUP_FAILS.with(|m| {
+        let mut m = m.borrow_mut();
+        let e = m.entry(prop.to_string()).or_insert(0);
+        *e += 1;
+        *e
+    });
+    if n <= 3 {
+        rep.fail(prop, replay);
+    }
+}
+
+/// first repeated symbol: `(symbol, first index, second index)`
+fn first_duplicate(syms: &[usize]) -> Option<(usize, usize, usize)> {
+    let mut seen: std::collections::HashMap<usize, usize> = std::collections::HashMap::new();
+    for (i, &s) in syms.iter().enumerate() {
+        if let Some(&j) = seen.get(&s) {
+            return Some((s, j, i));
+        }
+        seen.insert(s, i);
+    }
+    None
+}
+
 fn describe(b: u32, p: u32, c: &Ctor) -> String {
     match c {
         Ctor::Contig { probs, infer } => format!("cat.contig {:x} {:x} {} {}", b, p, show_list(probs.clone()), *infer as u8),
@@ -255,7 +288,33 @@ fn check_conversions(rng: &mut Rng, rep: &mut Report, desc: &str, b: u32, p: u32
             Conv::Na | Conv::Unsupported => {}
             Conv::Ok(n) => {
                 if op == "togenenc" && !distinct {
-                    continue; // labels are not unique: the hash map keeps one interval per label
+                    // repeated labels (only the decoder constructors accept them): the hash map
+                    // keeps one interval per label, so the generic encoder cannot be the
+                    // decoder's model.  Exercise it and report it (open known finding).
+                    rep.eval("C05");
+                    let labels: Vec<usize> = t.iter().map(|e| e.0).collect();
+                    if let Some((sym, i, j)) = first_duplicate(&labels) {
+                        let got = guarded(|| n.enc(sym)).ok().flatten().flatten();
+                        let covered: u128 = {
+                            let mut seen = std::collections::HashSet::new();
+                            let mut c = 0u128;
+                            for &l in &labels {
+                                if seen.insert(l) {
+                                    if let Ok(Some(Some((_, pr)))) = guarded(|| n.enc(l)) {
+                                        c = c.saturating_add(pr);
+                                    }
+                                }
+                            }
+                            c
+                        };
+                        let sup = guarded(|| n.support()).ok().flatten();
+                        if covered != pow2(p) || sup != Some(labels.len()) {
+                            dup_fail(rep, "C05", format!(
+                                "{} | togenenc | support | enc {:x} => duplicate symbols: generic encoder is not the decoder's model (symbol {:x} labels bins {} and {} = {:x}:{:x} and {:x}:{:x}, the encoder answers {:?}, has {:?} of {} entries and covers {:x} of 2^P)",
+                                desc, sym, sym, i, j, t[i].1, t[i].2, t[j].1, t[j].2, got, sup, labels.len(), covered));
+                        }
+                    }
+                    continue;
                 }
                 rep.count(&format!("C05.conv.{}.{}", m.kind(), op));
                 let d = format!("{} | {}", desc, op);
@@ -369,11 +428,12 @@ fn ctor_verdict(p: u32, c: &Ctor) -> Option<Result<Vec<Triple>, String>> {
             if s.len() != full.len() {
                 return Some(Err(format!("{} symbols for {} entries", s.len(), full.len())));
             }
-            if let Ctor::NcEnc { .. } = c {
-                let d = s.iter().collect::<std::collections::HashSet<_>>().len();
-                if d != s.len() {
+            if let Some((sym, i, j)) = first_duplicate(s) {
+                if let Ctor::NcEnc { .. } = c {
                     return Some(Err("a symbol occurs twice (its second interval would be lost)".into()));
                 }
+                // decoder kinds: the open known finding, reported through `dup_fail`
+                return Some(Err(format!("\u{1}{:x} labels entries {} and {}", sym, i, j)));
             }
             s.clone()
         }
@@ -393,7 +453,11 @@ fn oracle_arbitrary(rng: &mut Rng, rep: &mut Report, b: u32, p: u32, c: &Ctor) {
             let expect: Option<Vec<Triple>> = match &verdict {
                 Some(Ok(t)) => Some(t.clone()),
                 Some(Err(reason)) => {
-                    cat_fail(rep, "C19", format!("{} => accepted although {}", desc, reason));
+                    if let Some(r) = reason.strip_prefix('\u{1}') {
+                        dup_fail(rep, "C19", format!("{} => accepted although the symbol list has duplicate symbols: {} (the model is a valid decoder, but its symbols are not a support: C03's one-interval-per-symbol fails)", desc, r));
+                    } else {
+                        cat_fail(rep, "C19", format!("{} => accepted although {}", desc, reason));
+                    }
                     None
                 }
                 None => None,
@@ -575,15 +639,191 @@ fn oracle_uniform(rng: &mut Rng, rep: &mut Report, b: u32, p: u32, range: usize,
     }
 }
 
+/// the open known finding, exercised on purpose: repeated symbols at the first / last /
+/// adjacent / non-adjacent positions, both decoder kinds
+fn oracle_duplicates(rng: &mut Rng, rep: &mut Report, b: u32, p: u32) {
+    for kind in ["ncdec", "nclookup"] {
+        if b >= 32 && kind == "nclookup" {
+            continue;
+        }
+        for n in [2usize, 3, 4, 6] {
+            if (n as u128) > pow2(p) {
+                continue;
+            }
+            // (i, j): entry j repeats the symbol of entry i
+            let mut patterns = vec![(0, 1), (n - 2, n - 1), (0, n - 1)];
+            if n >= 4 {
+                patterns.push((1, 3));
+                patterns.push((n / 2 - 1, n / 2));
+            }
+            patterns.dedup();
+            for (i, j) in patterns {
+                let probs = random_table(rng, p, n);
+                let infer = rng.chance(1, 2);
+                let mut labels = random_labels(rng, n);
+                labels[j] = labels[i];
+                let given = if infer { &probs[..n - 1] } else { &probs[..] };
+                let c = ctor_for(kind, &labels, given, infer);
+                let desc = describe(b, p, &c);
+                oracle_arbitrary(rng, rep, b, p, &c); // C19
+                if let Ok(Some(Built::Ok(m))) = guarded(|| build(b, p, &c)) {
+                    if let Ok(Some(t)) = guarded(|| m.table()) {
+                        if tiling_defect(p, &t).is_none() {
+                            check_conversions(rng, rep, &desc, b, p, m.as_ref(), &t, 1); // C05
+                        }
+                    }
+                } else {
+                    rep.count("C19.duplicate_symbols.rejected");
+                }
+            }
+        }
+    }
+}
+
+/// non-`usize` symbol types for the non-contiguous models: the same checks, run with the real
+/// generic code instantiated at another `Symbol` (the protocol itself speaks `usize` only)
+fn oracle_symbol_type<Sym, Pr, const P: usize>(rng: &mut Rng, rep: &mut Report, name: &str, to_sym: impl Fn(usize) -> Sym, lookup: bool)
+where
+    Sym: Copy + std::hash::Hash + Eq + Default + std::fmt::Debug,
+    Pr: Prob + Into<u64>,
+    usize: AsPrimitive<Pr>,
+{
+    let b = Pr::BITS as u32;
+    let p = P as u32;
+    for it in 0..24 {
+        let n = (2 + rng.below(pow2(p).min(40) - 1)) as usize;
+        let probs = random_table(rng, p, n);
+        let infer = it % 2 == 0;
+        let labels: Vec<usize> = (0..n).map(|i| 7 * i + (it % 5)).collect();
+        let syms: Vec<Sym> = labels.iter().map(|&l| to_sym(l)).collect();
+        let given: Vec<Pr> = probs[..n - infer as usize].iter().map(|&q| from_u128(q)).collect();
+        let want: Vec<(Sym, u128, u128)> = expected_table(&labels, &probs).iter().map(|e| (to_sym(e.0), e.1, e.2)).collect();
+        let desc = format!("{} (symbol type {})", describe(b, p, &Ctor::NcDec { syms: labels.clone(), probs: probs[..n - infer as usize].to_vec(), infer }), name);
+        let r = guarded(|| -> Result<(), String> {
+            let tr = |t: (Sym, Pr, <Pr as BitArray>::NonZero)| (t.0, to_u128(t.1), nz::<Pr>(t.2));
+            let dec = NonContiguousCategoricalDecoderModel::<Sym, Pr, Vec<(Pr, Sym)>, P>::from_symbols_and_nonzero_fixed_point_probabilities(syms.iter().copied(), given.iter(), infer)
+                .map_err(|_| "decoder constructor rejected a valid table".to_string())?;
+            let enc = NonContiguousCategoricalEncoderModel::<Sym, Pr, P>::from_symbols_and_nonzero_fixed_point_probabilities(syms.iter().copied(), given.iter(), infer)
+                .map_err(|_| "encoder constructor rejected a valid table".to_string())?;
+            let t: Vec<_> = dec.symbol_table().map(tr).collect();
+            if t != want {
+                return Err(format!("symbol_table {:?} expected {:?}", t, want));
+            }
+            let gen_enc = dec.to_generic_encoder_model();
+            let gen_dec = dec.to_generic_decoder_model();
+            if gen_dec.symbol_table().map(tr).collect::<Vec<_>>() != want {
+                return Err("to_generic_decoder_model: different symbol table".into());
+            }
+            for e in &want {
+                for (which, m) in [("encoder", &enc), ("generic encoder", &gen_enc)] {
+                    let r = m.left_cumulative_and_probability(e.0).map(|(c, q)| (to_u128(c), nz::<Pr>(q)));
+                    if r != Some((e.1, e.2)) {
+                        return Err(format!("{}: enc {:?} => {:?} expected {:x}:{:x}", which, e.0, r, e.1, e.2));
+                    }
+                }
+            }
+            for l in [1000usize, 1001, 5000] {
+                if enc.left_cumulative_and_probability(to_sym(l)).is_some() {
+                    return Err(format!("enc {:?} => Some for a symbol outside the support", to_sym(l)));
+                }
+            }
+            let total = pow2(p);
+            let mut qs: Vec<u128> = vec![0, total - 1, total / 2];
+            for e in &want {
+                qs.push(e.1);
+                qs.push(e.1 + e.2 - 1);
+            }
+            for &q in &qs {
+                let w = want.iter().find(|e| e.1 <= q && q < e.1 + e.2).copied();
+                for (which, r) in [("decoder", tr(dec.quantile_function(from_u128(q)))), ("generic decoder", tr(gen_dec.quantile_function(from_u128(q))))] {
+                    if Some(r) != w {
+                        return Err(format!("{}: dec {:x} => {:?} expected {:?}", which, q, r, w));
+                    }
+                }
+            }
+            Ok(())
+        });
+        for prop in ["C03", "C05"] {
+            rep.eval(prop);
+        }
+        rep.count(&format!("C05.symbol_type.{}", name));
+        match r {
+            Ok(Ok(())) => {}
+            Ok(Err(e)) => cat_fail(rep, "C05", format!("{} => {}", desc, e)),
+            Err(class) => cat_fail(rep, "C05", format!("{} => {}", desc, class)),
+        }
+        let _ = lookup;
+    }
+}
+
+/// the same for the lookup decoder (needs `Probability: Into<usize>`)
+macro_rules! oracle_symbol_type_lookup {
+    ($rng:expr, $rep:expr, $name:expr, $Sym:ty, $Pr:ty, $P:literal, $to_sym:expr) => {{
+        let p: u32 = $P;
+        let b: u32 = <$Pr>::BITS as u32;
+        for it in 0..24usize {
+            let n = (2 + $rng.below(pow2(p).min(40) - 1)) as usize;
+            let probs = random_table($rng, p, n);
+            let infer = it % 2 == 1;
+            let labels: Vec<usize> = (0..n).map(|i| 7 * i + (it % 5)).collect();
+            let syms: Vec<$Sym> = labels.iter().map(|&l| $to_sym(l)).collect();
+            let given: Vec<$Pr> = probs[..n - infer as usize].iter().map(|&q| from_u128(q)).collect();
+            let want: Vec<($Sym, u128, u128)> = expected_table(&labels, &probs).iter().map(|e| ($to_sym(e.0), e.1, e.2)).collect();
+            let desc = format!("{} (symbol type {})", describe(b, p, &Ctor::NcLookup { syms: labels.clone(), probs: probs[..n - infer as usize].to_vec(), infer }), $name);
+            let r = guarded(|| -> Result<(), String> {
+                let tr = |t: ($Sym, $Pr, <$Pr as BitArray>::NonZero)| (t.0, to_u128(t.1), nz::<$Pr>(t.2));
+                let lk = NonContiguousLookupDecoderModel::<$Sym, $Pr, Vec<($Pr, $Sym)>, Box<[$Pr]>, $P>::from_symbols_and_nonzero_fixed_point_probabilities(syms.iter().copied(), given.iter(), infer)
+                    .map_err(|_| "lookup constructor rejected a valid table".to_string())?;
+                if lk.symbol_table().map(tr).collect::<Vec<_>>() != want {
+                    return Err("symbol_table differs".into());
+                }
+                let gl = lk.to_generic_lookup_decoder_model();
+                let nc = lk.as_non_contiguous_categorical();
+                for q in 0..pow2(p).min(4096) {
+                    let w = want.iter().find(|e| e.1 <= q && q < e.1 + e.2).copied();
+                    for (which, r) in [("lookup", tr(lk.quantile_function(from_u128(q)))), ("generic lookup", tr(gl.quantile_function(from_u128(q)))), ("as_non_contiguous", tr(nc.quantile_function(from_u128(q))))] {
+                        if Some(r) != w {
+                            return Err(format!("{}: dec {:x} => {:?} expected {:?}", which, q, r, w));
+                        }
+                    }
+                }
+                Ok(())
+            });
+            $rep.eval("C05");
+            $rep.count(&format!("C05.symbol_type.{}.lookup", $name));
+            match r {
+                Ok(Ok(())) => {}
+                Ok(Err(e)) => cat_fail($rep, "C05", format!("{} => {}", desc, e)),
+                Err(class) => cat_fail($rep, "C05", format!("{} => {}", desc, class)),
+            }
+        }
+    }};
+}
+
 pub fn oracle(rng: &mut Rng, tier: &str, rep: &mut Report) {
     let thorough = tier == "thorough";
 
+    // ---- non-usize symbol types ------------------------------------------------------------
+    let to_i16 = |l: usize| (l as i64 - 3000) as i16;
+    let to_char = |l: usize| char::from_u32(0x3b1 + l as u32).unwrap_or('?');
+    oracle_symbol_type::<i16, u8, 8>(rng, rep, "i16", to_i16, true);
+    oracle_symbol_type::<i16, u16, 12>(rng, rep, "i16", to_i16, true);
+    oracle_symbol_type::<i16, u32, 24>(rng, rep, "i16", to_i16, false);
+    oracle_symbol_type::<char, u16, 16>(rng, rep, "char", to_char, true);
+    oracle_symbol_type::<char, u32, 32>(rng, rep, "char", to_char, false);
+    oracle_symbol_type_lookup!(rng, rep, "i16", i16, u8, 8, to_i16);
+    oracle_symbol_type_lookup!(rng, rep, "i16", i16, u16, 12, to_i16);
+    oracle_symbol_type_lookup!(rng, rep, "char", char, u16, 16, to_char);
+
     // ---- every valid table with ≤ 4 symbols at P ≤ 4 (C03, C05, C09, C19, C20) ----------
     for &(b, _) in BPS {
+        if b == 64 {
+            continue; // only (64, 1 | 24 | 63 | 64) are compiled in
+        }
         for p in 1..=4u32 {
             for (ti, probs) in all_valid_tables(p, 4).iter().enumerate() {
                 for (ki, kind) in KINDS.iter().enumerate() {
-                    if b == 32 && kind.contains("lookup") {
+                    if b >= 32 && kind.contains("lookup") {
                         continue;
                     }
                     for infer in [false, true] {
@@ -603,7 +843,7 @@ pub fn oracle(rng: &mut Rng, tier: &str, rep: &mut Report) {
         for &p in ps {
             for i in 0..per_bp {
                 let kind = KINDS[i % 5];
-                if b == 32 && kind.contains("lookup") {
+                if b >= 32 && kind.contains("lookup") {
                     continue;
                 }
                 let maxn = pow2(p).min(if i % 8 == 0 { 400 } else { 30 });
@@ -647,7 +887,7 @@ pub fn oracle(rng: &mut Rng, tier: &str, rep: &mut Report) {
         for &p in ps {
             for i in 0..per_bp {
                 let kind = KINDS[i % 5];
-                if b == 32 && kind.contains("lookup") {
+                if b >= 32 && kind.contains("lookup") {
                     continue;
                 }
                 let maxn = if kind.contains("lookup") { 6 } else { 12 };
@@ -673,7 +913,7 @@ pub fn oracle(rng: &mut Rng, tier: &str, rep: &mut Report) {
             }
             // the single-symbol inputs of D6/D7/D15 at this very (B, P)
             for kind in KINDS {
-                if b == 32 && kind.contains("lookup") {
+                if b >= 32 && kind.contains("lookup") {
                     continue;
                 }
                 let maxv = pow2(b) - 1;
@@ -683,12 +923,13 @@ pub fn oracle(rng: &mut Rng, tier: &str, rep: &mut Report) {
                     rep.count("C19.single_symbol_inputs");
                 }
             }
+            oracle_duplicates(rng, rep, b, p);
             // directed invalid / borderline classes, every kind, with and without infer_last
             let tables = directed_tables(rng, b, p);
             for (ti, probs) in tables.iter().enumerate() {
                 for infer in [false, true] {
                     for (ki, kind) in KINDS.iter().enumerate() {
-                        if b == 32 && kind.contains("lookup") {
+                        if b >= 32 && kind.contains("lookup") {
                             continue;
                         }
                         // quick: every table on the contiguous constructor, the others in rotation
